@@ -1,7 +1,7 @@
 SPECIFICATION Spec
 CONSTANTS
   Schemes = {1, 2, 3, 4, 5}
-  QuadOctets = {0, 1, 9, 10, 99, 100, 255}
+  QuadOctets = {0, 1, 10, 100, 255}
   V4Octets = {0, 1, 9, 10, 99, 100, 255}
   Modes = {"a6", "emb", "a4", "e164"}
   E164Alphabet = {48, 49, 57, 43, 32, 45, 46, 40, 97}
